@@ -72,7 +72,7 @@ ConfigFactOK(e) ==
   /\ C \subseteq SeqSet(e.defined)                 \* naming one macro is enough
   /\ PairSet(e.types) = TypesOf(C)                 \* exactly the documented widths
   /\ \A i \in 1..Len(e.maxw) : e.maxw[i][2] = MaxWidth(C, e.maxw[i][1])
-  /\ \A i \in 1..Len(e.natw) : e.natw[i][2] \in Widths(C, e.natw[i][1])
+  /\ \A i \in 1..Len(e.natw) : e.natw[i][2] = MaxWidth(C, e.natw[i][1])   \* on x86 the natural width is the widest register
   /\ e.layout_ok = 1
 \* a standalone inclusion of one header must compile
 IncludeFactOK(e) == e.compiled = 1
